@@ -66,7 +66,7 @@ def compile_liquid_rules(
 
     if not comment_start_string:
         # Do not support shorthand comment syntax
-        content_pattern = rf".+?(?=(({tag_s}|{stmt_s})(?P<rstrip>-?))|$)"
+        content_pattern = rf".+?(?=(({tag_s}|{stmt_s})(?P<rstrip>-?))|\Z)"
 
         liquid_rules = [
             ("RAW", raw_pattern),
@@ -76,7 +76,7 @@ def compile_liquid_rules(
             (TOKEN_CONTENT, content_pattern),
         ]
     else:
-        content_pattern = rf".+?(?=(({tag_s}|{stmt_s}|{comment_s})(?P<rstrip>-?))|$)"
+        content_pattern = rf".+?(?=(({tag_s}|{stmt_s}|{comment_s})(?P<rstrip>-?))|\Z)"
         comment_pattern = rf"{comment_s}(?P<comment>.*?)(?P<rsc>-?){comment_e}"
 
         liquid_rules = [
